@@ -477,18 +477,29 @@ struct UdpObs {
     /// datagrams sent / replies received after the socket had been idle for 11 s
     after_idle_sent: usize,
     after_idle_replies: usize,
+    /// after 21 s of one-way traffic: datagrams asking for a reply at the first-seen address / replies received
+    oneway_then_sent: usize,
+    oneway_then_replies: usize,
     bad_header: Vec<String>,
     assoc_err: Option<String>,
 }
 
 async fn udp_target(sock: UdpSocket, marker: u8) {
     let mut b = vec![0u8; 70000];
+    // the address each local client (tag = first 8 bytes) was first seen from: a target that answers late answers there
+    let mut first_seen: HashMap<u64, SocketAddr> = HashMap::new();
     loop {
-        let Ok((n, from)) = sock.recv_from(&mut b).await else { break };
+        let Ok((n, mut from)) = sock.recv_from(&mut b).await else { break };
         if n < 10 {
             // untagged probe (e.g. empty datagram): answer once with a marker
             sock.send_to(b"short", from).await.ok();
             continue;
+        }
+        let tag = u64::from_be_bytes(b[..8].try_into().unwrap());
+        let first = *first_seen.entry(tag).or_insert(from);
+        if b[9] & 0x80 != 0 {
+            // "reply to where you first heard from me"
+            from = first;
         }
         // byte 9 of the request says how many replies (0..=3)
         let k = b[9] % 4;
@@ -574,6 +585,48 @@ async fn udp_client(env: Arc<Env>, seed: u64, cid: u64, socks5: bool, n: usize, 
         collect(&sock, dest, socks5, cid, &expected, &mut seen, &mut o, deadline).await;
     }
     collect(&sock, dest, socks5, cid, &expected, &mut seen, &mut o, Instant::now() + Duration::from_millis(400)).await;
+    if cid % 4 == 1 {
+        // one-way traffic for longer than the relay's idle time-out (a datagram every second, no reply asked for), then the
+        // target answers to the address it first heard from: the flow is one flow all along, the reply must arrive
+        let mk = |seq: u32, flags: u8| {
+            let mut req = cid.to_be_bytes().to_vec();
+            req.push((seq & 0xff) as u8);
+            req.push(flags);
+            req.extend(seq.to_be_bytes());
+            req.extend(prf_vec(mix(seed, cid * 1000 + u64::from(seq)), 0, 24));
+            req
+        };
+        let wrap = |req: &Vec<u8>| {
+            if socks5 {
+                let mut w = vec![0u8, 0, 0, 1, 127, 0, 0, 1];
+                w.extend(env.udp_target_port.to_be_bytes());
+                w.extend(req);
+                w
+            } else {
+                req.clone()
+            }
+        };
+        // (21 s: the relay looks for idle entries every 10 s, so one of its checks falls more than 10 s after the last reply)
+        for k in 0..21u32 {
+            let req = mk(n as u32 + 100 + k, 0);
+            sock.send_to(&wrap(&req), dest).await.ok();
+            tokio::time::sleep(Duration::from_millis(1000)).await;
+        }
+        let before = o.replies;
+        for k in 0..4u32 {
+            let seq = n as u32 + 200 + k;
+            let req = mk(seq, 0x81);
+            let mut out = vec![b'R', 0];
+            out.extend_from_slice(&req);
+            expected.insert((seq, 0), out);
+            if sock.send_to(&wrap(&req), dest).await.is_ok() {
+                o.oneway_then_sent += 1;
+            }
+            collect(&sock, dest, socks5, cid, &expected, &mut seen, &mut o, Instant::now() + Duration::from_millis(200)).await;
+        }
+        collect(&sock, dest, socks5, cid, &expected, &mut seen, &mut o, Instant::now() + Duration::from_millis(400)).await;
+        o.oneway_then_replies = o.replies - before;
+    }
     if cid % 4 == 0 {
         // the same local socket falls silent for longer than the relay's idle time-out (10 s), then resumes:
         // the first datagram may be lost while the relay is set up again, the flow must not stay dead
@@ -937,6 +990,12 @@ fn judge(st: &mut Stats, seed: u64, out: &RunOut) {
         }
         if o.corrupted > 0 {
             st.violation(Violation { signature: format!("udp-corrupted|{kind}"), detail: format!("{} replies do not match any reply the target sent for this client (payload modified)", o.corrupted), replay: replay() });
+        }
+        if o.oneway_then_sent > 0 {
+            st.target("udp_flows_after_one_way_traffic", 1);
+            if o.oneway_then_sent >= 3 && o.oneway_then_replies == 0 {
+                st.violation(Violation { signature: format!("udp-late-reply-lost-after-one-way-traffic|{kind}"), detail: format!("the local socket sent a datagram every second for 21 s without asking for replies, then {} datagrams that the target answered at the address it had first heard from: not one reply reached the local client (the flow did not stay one flow)", o.oneway_then_sent), replay: replay() });
+            }
         }
         if o.after_idle_sent > 0 {
             st.target("udp_flows_resumed_after_idle", 1);
